@@ -428,8 +428,10 @@ impl Logger {
 
 impl log::Log for Logger {
     fn enabled(&self, metadata: &Metadata) -> bool {
-        self.0
-            .load()
+        let shared = self.0.load();
+        #[cfg(feature = "verif_hooks")]
+        crate::verif::sync_point("enabled.loaded", 0);
+        shared
             .root
             .find(metadata.target())
             .enabled(metadata.level())
